@@ -417,6 +417,13 @@ func checkCmd(args []string) int {
 		cross = true
 	}
 	rc.solve(timeout, cross)
+	if os.Getenv("VERIF_SLOW") != "" {
+		for _, r := range rc.results {
+			if r.Seconds > 2 {
+				fmt.Printf("slow: %.1fs %s %s %s\n", r.Seconds, r.Status, r.Backend, r.Obl.Name)
+			}
+		}
+	}
 	gs := rc.groups()
 	base := loadBaseline(*prop)
 	known := loadKnown()
